@@ -17,7 +17,7 @@ from explore import expect, conc, Violation
 PROPERTY = 'C05'
 HELPERS = os.path.join(hsupport.VERIF, 'helpers/bin')
 CICADA = os.path.join(hsupport.VERIF, 'build/bin/debug/cicada')
-BUDGET = {'quick': 420, 'thorough': 3300}
+BUDGET = {'quick': 900, 'thorough': 3300}
 BOUNDS = {'quick': dict(cmdline=3, pre=3, hl=3, ws=4), 'thorough': dict(cmdline=4, pre=4, hl=4, ws=5)}
 ASSUMPTIONS = [
     'bounded: every line of <= n characters (see coverage.bounds), each character an arbitrary Unicode scalar except NUL and newline; longer lines are outside the claim',
